@@ -19,8 +19,24 @@
 namespace vf {
 
 // ------------------------------------------------------------------------------------------------ builder
+// Alias registry: when set, every shareable sub-object (an ImportSource, the own Units object of a variable, the free-standing
+// variable a reset points at - objects without a parent, so several owners may hold one instance) is created once per distinct
+// CONTENT and the same instance is handed to every owner whose sub-spec is identical, across all entities built with the registry.
+using AliasMap = std::map<std::string, std::shared_ptr<void>>;
+inline uint64_t g_aliasReuses = 0;
 struct Builder
 {
+    AliasMap *alias = nullptr;
+    template<class T, class F> std::shared_ptr<T> aliased(const char *site, const json &j, F make)
+    {
+        if (!alias) return make();
+        std::string key = site + j.dump();
+        auto it = alias->find(key);
+        if (it != alias->end()) { ++g_aliasReuses; return std::static_pointer_cast<T>(it->second); }
+        auto o = make();
+        (*alias)[key] = o;
+        return o;
+    }
     std::vector<std::shared_ptr<void>> keep; // parents, outside variables, ... kept alive as long as the built entity
     std::map<std::string, ImportSourcePtr> shared;
     ModelPtr model; // context for "link": variables use the model's units object of that name (as the parser does)
@@ -42,11 +58,15 @@ struct Builder
     }
     void imported(const ImportedEntityPtr &e, const json &j)
     {
-        if (j.contains("isrc") && j["isrc"].is_object()) e->setImportSource(importSource(j["isrc"]));
+        if (j.contains("isrc") && j["isrc"].is_object()) e->setImportSource(aliased<ImportSource>("is:", j["isrc"], [&] { return importSource(j["isrc"]); }));
         if (j.contains("iref")) e->setImportReference(S(j, "iref"));
     }
     UnitsPtr units(const json &j)
     {
+        if (j.contains("ulink") && j["ulink"].is_number_integer() && model) { // the model's units at that POSITION (content-equal units twins)
+            auto u = model->units(size_t(j["ulink"].get<int>()));
+            if (u) return u;
+        }
         if (B(j, "link") && model) {
             auto u = model->units(S(j, "name"));
             if (u) return u;
@@ -72,7 +92,11 @@ struct Builder
         if (j.contains("id")) v->setId(S(j, "id"));
         if (j.contains("iv")) v->setInitialValue(S(j, "iv"));
         if (j.contains("iface")) v->setInterfaceType(S(j, "iface"));
-        if (j.contains("u") && j["u"].is_object()) v->setUnits(units(j["u"]));
+        if (j.contains("u") && j["u"].is_object()) {
+            const json &u = j["u"];
+            bool own = !(B(u, "link") && model && model->units(S(u, "name"))) && !B(u, "parented") && !u.contains("ulink");
+            v->setUnits(own ? aliased<Units>("u:", u, [&] { return units(u); }) : units(u));
+        }
         if (B(j, "parented")) {
             auto c = Component::create("parent_of_variable");
             c->addVariable(v);
@@ -93,7 +117,7 @@ struct Builder
         if (!j.contains(k)) return nullptr;
         const json &r = j[k];
         if (r.is_number_integer()) return owner ? owner->variable(size_t(r.get<int>())) : nullptr;
-        if (r.is_object()) return variable(r);
+        if (r.is_object()) return (B(r, "parented") || B(r, "eqx")) ? variable(r) : aliased<Variable>("v:", r, [&] { return variable(r); });
         return nullptr;
     }
     ResetPtr reset(const json &j, const ComponentPtr &owner = nullptr)
